@@ -36,6 +36,9 @@ mod time;
 #[cfg(feature = "serde")]
 pub mod snapshot;
 
+#[cfg(excsn_fibre_verif)]
+pub mod verif;
+
 // Re-export the primary user-facing types for convenience
 pub use builder::CacheBuilder;
 pub use entry_api::Entry;
